@@ -80,6 +80,8 @@ def cases(tier, seed):
         for nanp in ("none", "point"):
             yield {"mode": "aggregate", "agg": agg, "err": err,
                    "method": meth, "style": style, "nan": nanp}
+            yield {"mode": "aggregate", "agg": agg, "err": err,
+                   "method": meth, "style": style, "nan": nanp, "two": True}
     # histogram
     for bins, dens, mapped, nanp in itertools.product(
             (None, 4, "edges"), (True, False), (None, "color", "row"),
@@ -383,16 +385,25 @@ def check_fused(case):
 def check_agg(case):
     import numpy as np
 
-    ds, dims = make_ds((3, 2), [0, 0], case["nan"])
-    # make the aggregated dimension vary non-trivially
-    ds["y"] = ds["y"] + 0.5 * (ds["d0"] ** 2)
+    two = bool(case.get("two"))
+    if two:
+        # two aggregated dimensions (a median of medians is not the median
+        # of the pooled values)
+        ds, dims = make_ds((3, 2, 3), [0, 0, 0], case["nan"])
+        ds["y"] = ds["y"] + 0.5 * (ds["d0"] ** 2) + 0.013 * (ds["d2"] ** 3) \
+            + 2.0 * (ds["d0"] > 1) * (ds["d2"] > 7)
+    else:
+        ds, dims = make_ds((3, 2), [0, 0], case["nan"])
+        # make the aggregated dimension vary non-trivially
+        ds["y"] = ds["y"] + 0.5 * (ds["d0"] ** 2)
     before = ds.copy(deep=True)
     vio = []
 
     def key(sym):
         return "C18|aggregate|%s|%s|%s" % (case["err"], case["method"], sym)
 
-    kw = dict(color="d1", aggregate=True if case["agg"] is True else "d0",
+    kw = dict(color="d1", aggregate=True if case["agg"] is True else (
+                  ["d2", "d0"] if two else "d0"),
               aggregate_err_range=case["err"], aggregate_method=case["method"])
     if case["style"]:
         kw["err_style"] = case["style"]
@@ -402,7 +413,7 @@ def check_agg(case):
     if not ds.identical(before):
         vio.append((key("dataset-modified"), "plotting changed the dataset"))
     ax = axs[0, 0]
-    yv = before["y"].values  # (d0, d1, x)
+    yv = before["y"].transpose(*(dims + ["x"])).values  # (d0, d1[, d2], x)
     fn = np.nanmedian if case["method"] == "median" else np.nanmean
     if len(ax.lines) < 2:
         vio.append((key("count"), "%d central lines for 2 colour coordinates"
@@ -412,13 +423,13 @@ def check_agg(case):
     data_lines = [l for l in ax.lines
                   if not str(l.get_label()).startswith("_")][:2]
     for j, line in enumerate(data_lines):
-        want = fn(yv[:, j, :], axis=0)
+        col = yv[:, j].reshape(-1, yv.shape[-1])  # pooled over d0 (and d2)
+        want = fn(col, axis=0)
         got = np.asarray(line.get_ydata(), float)
         if not np.allclose(got, want, equal_nan=True):
             vio.append((key("central"), "colour %d: central line %r, %s over "
                         "the aggregated dimension %r" % (
                             j, got.tolist(), case["method"], want.tolist())))
-        col = yv[:, j, :]
         if case["err"] == "std":
             lo = np.nanmean(col, 0) - np.nanstd(col, 0)
             hi = np.nanmean(col, 0) + np.nanstd(col, 0)
